@@ -323,3 +323,93 @@ Fixpoint ser_space (m : mf) (st : sst) : sres :=
 (* SerializeMessage of a fresh serializer: new uint8_t[m_initial_buffer_size], m_offset = 0 *)
 Definition serialize_space (init : N) (m : list mf) : sres :=
   space_list ser_space m {| cap := init; soff := 0 |}.
+
+(* ---------------------------------------------------------------- a REUSED MessageSerializer
+   m_data keeps the bytes of earlier messages.  The buffer is a list with arbitrary stale contents;
+   every memcpy/memset of the Visit methods overwrites len(bytes) bytes at m_offset.  A string is
+   two writes: memcpy of the characters, memset of the NUL padding up to MinSize. *)
+Definition bwrite (bytes : list N) (s : list N * N) : list N * N :=
+  let (buf, o) := s in
+  (take o buf ++ bytes ++ drop (o + len bytes) buf, o + len bytes).
+
+Definition into_list (f : mf -> list N * N -> list N * N) : list mf -> list N * N -> list N * N :=
+  fix go (l : list mf) (s : list N * N) : list N * N :=
+    match l with [] => s | m :: r => go r (f m s) end.
+
+Fixpoint ser_into (m : mf) (s : list N * N) : list N * N :=
+  match m with
+  | MStr mn mx v =>
+    let size := N.min (len v) mx in
+    let used := N.max size mn in
+    bwrite (repeat 0 (N.to_nat (used - size))) (bwrite (take size v) s)
+  | MGroup fs => into_list ser_into fs s
+  | _ => bwrite (ser m) s
+  end.
+
+(* SerializeMessage on a serializer whose buffer holds `stale`: m_offset = 0, visit, return the
+   first m_offset bytes *)
+Definition serialize_into (stale : list N) (m : list mf) : list N :=
+  let (buf, o) := into_list ser_into m (stale, 0) in take o buf.
+
+(* ---------------------------------------------------------------- GroupSizeCalculator
+   (common/rdm/GroupSizeCalculator.cpp; used by StringMessageBuilder when a message is built from
+   text tokens: the number of blocks of the variable group is derived from the token count) *)
+(* StaticGroupTokenCalculator: (tokens, a variable-sized group was met) for one field *)
+Fixpoint tokens (f : fd) : N * bool :=
+  match f with
+  | FGroup mn mx fs =>
+    let inner := map tokens fs in
+    (u32 (u32 (sumN (map fst inner)) * mn),                       (* PostVisit: top += length * MinBlocks *)
+     negb (fixed_size (FGroup mn mx fs)) || existsb snd inner)
+  | _ => (1, false)
+  end.
+(* CalculateTokensRequired(group): the tokens of ONE block *)
+Definition block_tokens (g : fd) : N * bool :=
+  match g with
+  | FGroup _ _ fs => let inner := map tokens fs in (u32 (sumN (map fst inner)), existsb snd inner)
+  | _ => (0, false)
+  end.
+
+Inductive gstate :=
+| GInsufficient | GExtra | GMismatched | GMultipleVar | GNestedVar | GSingleVar (n : N) | GNoVar
+| GDivZero.       (* hazard: remaining_tokens % 0 *)
+
+Definition is_group (f : fd) : bool := match f with FGroup _ _ _ => true | _ => false end.
+
+Record gacc := { g_req : N; g_cnt : N; g_tok : N; g_mx : Z }.
+(* the loop over m_groups; None = early return with the given state *)
+Fixpoint gloop (gs : list fd) (a : gacc) : gstate + gacc :=
+  match gs with
+  | [] => inr a
+  | g :: r =>
+    let (t, v) := block_tokens g in
+    if v then inl GNestedVar else
+    match g with
+    | FGroup mn mx _ =>
+      if fixed_size g then gloop r {| g_req := u32 (g_req a + u32 (mn * t)); g_cnt := g_cnt a;
+                                      g_tok := g_tok a; g_mx := g_mx a |}
+      else if 1 <? g_cnt a + 1 then inl GMultipleVar
+      else gloop r {| g_req := g_req a; g_cnt := g_cnt a + 1; g_tok := t; g_mx := mx |}
+    | _ => gloop r a
+    end
+  end.
+
+Definition gcalc (tc : N) (fs : list fd) : gstate :=
+  let groups := filter is_group fs in
+  let req := len (filter (fun f => negb (is_group f)) fs) in
+  if tc <? req then GInsufficient else
+  match groups with
+  | [] => if req =? tc then GNoVar else GExtra
+  | _ =>
+    match gloop groups {| g_req := req; g_cnt := 0; g_tok := 0; g_mx := 0 |} with
+    | inl s => s
+    | inr a =>
+      if tc <? g_req a then GInsufficient else
+      if g_cnt a =? 0 then (if g_req a =? tc then GNoVar else GExtra) else
+      let rem := tc - g_req a in
+      if negb (g_mx a =? -1)%Z && (u32 (u32z (g_mx a) * g_tok a) <? rem) then GExtra else
+      if g_tok a =? 0 then GDivZero else
+      if negb (rem mod g_tok a =? 0) then GMismatched else
+      GSingleVar (rem / g_tok a)
+    end
+  end.
